@@ -403,9 +403,10 @@ type Contracts struct {
 	Ifaces  map[string]*FuncContract // "ResolutionCache.Get"
 	Exts    map[string]*FuncContract // external functions: "strings.HasPrefix"
 	ExtSigs map[string][]Param
+	Ghosts  []Param
 }
 
-var clauseKw = map[string]bool{"requires": true, "ensures": true, "assigns": true, "loop": true, "decreases": true, "property": true,
+var clauseKw = map[string]bool{"defines": true, "assumes": true, "requires": true, "ensures": true, "assigns": true, "loop": true, "decreases": true, "property": true,
 	"pure": true, "trusted": true, "strings": true, "noinline": true, "params": true}
 
 func parseProps(s *string) []string {
@@ -451,7 +452,7 @@ func loadContracts(path string) (*Contracts, error) {
 	sc := bufio.NewScanner(f)
 	sc.Buffer(make([]byte, 1<<20), 1<<20)
 	no := 0
-	top := map[string]bool{"func": true, "define": true, "specfn": true, "axiom": true, "lemma": true, "smt": true, "iface": true, "ext": true}
+	top := map[string]bool{"func": true, "define": true, "specfn": true, "axiom": true, "lemma": true, "smt": true, "iface": true, "ext": true, "ghost": true}
 	for sc.Scan() {
 		no++
 		t := sc.Text()
@@ -516,7 +517,14 @@ func loadContracts(path string) (*Contracts, error) {
 			cur.Why = rest
 		case "strings":
 			cur.Strings = rest
-		case "requires", "ensures", "decreases":
+		case "ghost":
+			// ghost name type   — a ghost variable of the whole run (changed only through contracts)
+			fs := strings.Fields(rest)
+			if len(fs) < 2 {
+				return nil, fail(fmt.Errorf("bad ghost declaration"))
+			}
+			c.Ghosts = append(c.Ghosts, Param{fs[0], strings.TrimSpace(rest[len(fs[0]):])})
+		case "requires", "ensures", "decreases", "defines", "assumes":
 			props := parseProps(&rest)
 			name := ""
 			if i := strings.Index(rest, "@@"); i >= 0 { // optional clause name:  name @@ expr
